@@ -188,8 +188,8 @@ def sym_of_ix(tok):
         return (int(t[1]), t[2], int(t[3]), 0)
     if k == "PX":
         return (int(t[1]), "PROXY", 48, 0)
-    acct0 = int(t[1]) if k in ("SL", "EL", "SD", "ED", "SF", "EF", "EFX", "IR") else 7
-    return (1, "EF" if k == "EFX" else k, 8, acct0)
+    acct0 = int(t[1]) if k in ("SL", "EL", "SD", "ED", "SF", "EF", "EFX", "EFN", "IR") else 7
+    return (1, "EF" if k in ("EFX", "EFN") else k, 8, acct0)
 
 
 def parse_sim(case, impl):
@@ -326,7 +326,9 @@ def fl_tx(rng):
         # the end instruction of ANOTHER account that lists this one among its trailing accounts / the right end with a passenger
         o2 = 2 if a != 2 else 3
         tail = [rng.choice(["EFX %d %d %d" % (o2, ACCTS[o2], a), "EFX %d %d %d" % (o2, ACCTS[o2], a), "EFX %d %d %d" % (a, s, o2)])]
-    elif q < 0.88:
+    elif q < 0.85:
+        tail = ["EFN %d %d" % (a, s)]       # the end instruction omits its risk (bank / oracle) accounts
+    elif q < 0.89:
         tail = []
     elif q < 0.92:
         tail = ["PX 4 EF %d %d" % (a, s)]
@@ -350,7 +352,7 @@ def sim_enumerated(kind):
     if kind == "liq":
         alpha = ["CB", "SL 1 20", "EL 1 20", "WD 1 20 31 %d" % (5 * U), "RP 1 20 32 %d" % (60 * U), "BR 2 12 32 %d" % U]
     else:
-        alpha = ["CB", "SF 3 13 2", "EF 3 13", "BR 3 13 32 %d" % (100 * U), "RP 3 13 32 %d" % (100 * U), "SF 3 13 3"]
+        alpha = ["CB", "SF 3 13 2", "EF 3 13", "BR 3 13 32 %d" % (100 * U), "RP 3 13 32 %d" % (100 * U), "SF 3 13 3", "EFN 3 13", "BR 3 13 32 %d" % (900 * U)]
     out = []
     for n in range(1, 4):
         for ks in itertools.product(alpha, repeat=n):
